@@ -71,7 +71,7 @@ class Checker(CheckerBase):
             [missing_key] = missing_keys
             if all('int' in arg.types for arg in src_args[missing_key]):
                 missing_keys = set()
-        for key in sorted(missing_keys):
+        for key in sorted(missing_keys, key=sort_key):
             self.tag('python-brace-format-string-missing-argument', prefix, key,
                 tags.safestr('not in'), tags.safestr(dst_loc),
                 tags.safestr('while in'), tags.safestr(src_loc),
